@@ -36,11 +36,22 @@ func die(f string, a ...interface{}) {
 // configuration
 
 // packages translated, in dependency order; Lean module name per package
-var pkgOrder = []string{"utils", "babyjub", "poseidon", "mimc7", "goldenposeidon"}
-var pkgModule = map[string]string{"utils": "GoUtils", "babyjub": "GoBabyjub", "poseidon": "GoPoseidon", "mimc7": "GoMimc7", "goldenposeidon": "GoGolden"}
+var pkgOrder = []string{"ff", "ffg", "utils", "babyjub", "poseidon", "mimc7", "goldenposeidon"}
+var pkgModule = map[string]string{"ff": "GoFF", "ffg": "GoFFG", "utils": "GoUtils", "babyjub": "GoBabyjub", "poseidon": "GoPoseidon", "mimc7": "GoMimc7", "goldenposeidon": "GoGolden"}
 var pkgImports = map[string][]string{
-	"utils": {}, "babyjub": {"GoUtils", "GoPoseidon", "GoMimc7"}, "poseidon": {"GoUtils"}, "mimc7": {"GoUtils"}, "goldenposeidon": {},
+	"ff": {}, "ffg": {}, "utils": {}, "babyjub": {"GoUtils", "GoPoseidon", "GoMimc7"}, "poseidon": {"GoUtils"}, "mimc7": {"GoUtils"}, "goldenposeidon": {},
 }
+
+// packages of which only the listed functions are translated: the value-level algorithms of the field packages
+// (everything else there works on the limb representation and belongs to translators T2/T3)
+var only = map[string]map[string]bool{
+	"ff":  {"ff.Element.Div": true, "ff.BatchInvert": true, "ff.Element.Exp": true, "ff.Element.Legendre": true, "ff.Element.Sqrt": true},
+	"ffg": {"ffg.Element.Div": true, "ffg.BatchInvert": true, "ffg.Element.Exp": true, "ffg.Element.Legendre": true, "ffg.Element.Sqrt": true},
+}
+
+// fuel for loops without a syntactic bound (`for {…}`, `for cond {…}`): a function containing one returns an
+// extra Bool `terminated`; the theorems show it is always true
+const whileFuel = 80
 
 // functions that are NOT translated, with the reason (they keep their hand-written models)
 var skip = map[string]string{
@@ -99,6 +110,10 @@ var globalMap = map[string]string{
 	"goldenposeidon.S":   "I3.Go.Ext.golden_S",
 	"goldenposeidon.M":   "I3.Go.Ext.golden_M",
 	"goldenposeidon.P":   "I3.Go.Ext.golden_P",
+	"ff._bLegendreExponentElement":  "((I3.Gen.ff_legendreExp : Nat) : Int)",
+	"ff._bSqrtExponentElement":      "((I3.Gen.ff_sqrtExp : Nat) : Int)",
+	"ffg._bLegendreExponentElement": "((I3.Gen.ffg_legendreExp : Nat) : Int)",
+	"ffg._bSqrtExponentElement":     "((I3.Gen.ffg_sqrtExp : Nat) : Int)",
 	"babyjub.ErrVerifyPoseidonFailed": "(some \"ErrVerifyPoseidonFailed\" : Option String)",
 	"babyjub.ErrVerifyMimc7Failed":    "(some \"ErrVerifyMimc7Failed\" : Option String)",
 	"babyjub.ErrSOutOfRange":          "(some \"ErrSOutOfRange\" : Option String)",
@@ -117,6 +132,8 @@ type funcInfo struct {
 	hasRecv  bool
 	mutated  []bool // per param: written through (caller-visible)
 	optParam []bool // per param: compared with nil
+	nilRes   bool   // single pointer result that may be nil: Option
+	fuel     bool   // contains an unbounded loop: extra Bool result `terminated`
 }
 
 var funcs = map[string]*funcInfo{}
@@ -290,6 +307,7 @@ type tr struct {
 	tmp    int
 	retTy  string
 	nres   int
+	loopFn    string          // fold used for the loop being translated (forRange / forRangeN / forDown)
 	optResult string          // set by a nil-able library call: the Option-valued temporary
 	deps   map[string]bool    // Lean definitions referenced
 }
@@ -688,6 +706,9 @@ func (t *tr) expr(e ast.Expr) string {
 		}
 		t.fail(e, "unsupported selector")
 	case *ast.IndexExpr:
+		if isElem(t.typeOf(x.X)) {
+			t.fail(e, "access to a limb of a field element (representation level: translators T2/T3)")
+		}
 		return "(I3.Go.idx " + t.expr(x.X) + " " + t.expr(x.Index) + ")"
 	case *ast.SliceExpr:
 		if x.Slice3 {
@@ -737,6 +758,18 @@ func (t *tr) globalRef(v *types.Var, e ast.Expr) string {
 
 func (t *tr) composite(x *ast.CompositeLit) string {
 	ty := t.typeOf(x)
+	if isElem(ty) {
+		// Element{l0, …}: limbs of the Montgomery representation
+		var ls []string
+		for _, el := range x.Elts {
+			tv, ok := t.info.Types[el]
+			if !ok || tv.Value == nil {
+				t.fail(x, "element literal with non-constant limb")
+			}
+			ls = append(ls, tv.Value.ExactString())
+		}
+		return "(I3.Go.fe.ofMont " + modulusOf(ty) + " [" + strings.Join(ls, ", ") + "])"
+	}
 	switch u := types.Unalias(ty).Underlying().(type) {
 	case *types.Slice:
 		return "[" + strings.Join(t.elts(x.Elts), ", ") + "]"
@@ -801,7 +834,72 @@ func basicKind(ty types.Type) types.BasicKind {
 	return types.Invalid
 }
 
+// limbEq recognises `(x[3] == c3) && … && (x[0] == c0)` over all limbs of a field element: equality with the
+// element whose Montgomery limbs are c0…; canonical limbs are unique, so this is equality of values.
+func (t *tr) limbEq(x ast.Expr) (string, bool) {
+	var conj []ast.Expr
+	var flat func(e ast.Expr)
+	flat = func(e ast.Expr) {
+		e = ast.Unparen(e)
+		if b, ok := e.(*ast.BinaryExpr); ok && b.Op == token.LAND {
+			flat(b.X)
+			flat(b.Y)
+			return
+		}
+		conj = append(conj, e)
+	}
+	flat(x)
+	var base ast.Expr
+	limbs := map[int64]string{}
+	for _, c := range conj {
+		b, ok := c.(*ast.BinaryExpr)
+		if !ok || b.Op != token.EQL {
+			return "", false
+		}
+		ix, ok := ast.Unparen(b.X).(*ast.IndexExpr)
+		if !ok || !isElem(t.typeOf(ix.X)) {
+			return "", false
+		}
+		itv, ok1 := t.info.Types[ix.Index]
+		ctv, ok2 := t.info.Types[b.Y]
+		if !ok1 || !ok2 || itv.Value == nil || ctv.Value == nil {
+			return "", false
+		}
+		if base == nil {
+			base = ix.X
+		} else if types.ExprString(base) != types.ExprString(ix.X) {
+			return "", false
+		}
+		i, _ := constant.Int64Val(itv.Value)
+		limbs[i] = ctv.Value.ExactString()
+	}
+	if base == nil {
+		return "", false
+	}
+	n := 4
+	if isFFG(t.typeOf(base)) {
+		n = 1
+	}
+	if len(limbs) != n || len(conj) != n {
+		return "", false
+	}
+	var ls []string
+	for i := 0; i < n; i++ {
+		l, ok := limbs[int64(i)]
+		if !ok {
+			return "", false
+		}
+		ls = append(ls, l)
+	}
+	return "(" + t.expr(base) + " == I3.Go.fe.ofMont " + modulusOf(t.typeOf(base)) + " [" + strings.Join(ls, ", ") + "])", true
+}
+
 func (t *tr) binary(x *ast.BinaryExpr) string {
+	if x.Op == token.LAND || x.Op == token.EQL {
+		if s, ok := t.limbEq(x); ok {
+			return s
+		}
+	}
 	// nil comparisons
 	if x.Op == token.EQL || x.Op == token.NEQ {
 		var other ast.Expr
@@ -874,6 +972,15 @@ func (t *tr) binary(x *ast.BinaryExpr) string {
 		case token.XOR:
 			return "(" + a + " ^^^ " + b + ")"
 		}
+	case "Nat":
+		if basicKind(t.typeOf(x.X)) == types.Uint64 {
+			switch x.Op {
+			case token.ADD:
+				return "(I3.Go.u64add " + a + " " + b + ")"
+			case token.SUB:
+				return "(I3.Go.u64sub " + a + " " + b + ")"
+			}
+		}
 	}
 	t.fail(x, "unsupported binary operator %s on %s", x.Op, lt)
 	return ""
@@ -918,7 +1025,7 @@ func (t *tr) call(c *ast.CallExpr, want int) []string {
 		pkgPath = fn.Pkg().Path()
 	}
 	// ---- library: math/big, ff, ffg
-	if sig.Recv() != nil && (isBigLib(sig.Recv().Type()) || isElem(sig.Recv().Type())) {
+	if sig.Recv() != nil && (isBigLib(sig.Recv().Type()) || isElem(sig.Recv().Type())) && !translatedHere(t, fn) {
 		sel := c.Fun.(*ast.SelectorExpr)
 		return []string{t.libMethod(c, sel, fn)}
 	}
@@ -927,6 +1034,10 @@ func (t *tr) call(c *ast.CallExpr, want int) []string {
 		return []string{t.expr(c.Args[0])}
 	case modPath + "ff.NewElement", modPath + "ffg.NewElement":
 		return []string{"(0 : Nat)"}
+	case modPath + "ff.One":
+		return []string{"(I3.Go.fe.one I3.Gen.ff_modulus)"}
+	case modPath + "ffg.One":
+		return []string{"(I3.Go.fe.one I3.Gen.ffg_modulus)"}
 	case modPath + "ffg.NewElementFromUint64":
 		return []string{"(I3.Go.fe.setUint64 I3.Gen.ffg_modulus " + t.expr(c.Args[0]) + ")"}
 	case "fmt.Errorf", "errors.New":
@@ -971,6 +1082,9 @@ func (t *tr) call(c *ast.CallExpr, want int) []string {
 		app += " " + a
 	}
 	app += ")"
+	if fi.fuel {
+		t.fail(c, "call of a function with an unbounded loop (%s) from translated code", key)
+	}
 	nres := sig.Results().Len()
 	nmut := 0
 	for _, m := range fi.mutated {
@@ -1055,6 +1169,14 @@ func (t *tr) builtin(name string, c *ast.CallExpr) string {
 	}
 	t.fail(c, "unsupported builtin %s", name)
 	return ""
+}
+
+// inside ff/ffg the value-level methods that T6 translates are called as translated functions;
+// everywhere else the Element API is a primitive (I3.Go.fe.*)
+func translatedHere(t *tr, fn *types.Func) bool {
+	k := funcKey(fn)
+	pd := pkgDirOf(fn.Pkg())
+	return only[pd][k] && t.f != nil && t.f.pkgdir == pd
 }
 
 // libMethod: math/big and field-element methods
